@@ -4,16 +4,19 @@ legs: MC   TLC checks that every result of the MECHANISM (census pass per column
            currency) descending, per-row conversion with half-even quantisation, NULL for zero) is accepted by the
            DECLARATIVE statement (Accepts) and satisfies the named sub-properties (no currency dropped, per-row
            per-currency sums, nothing invented, plain columns / rows untouched, frequency order) over every table
-           of the input space x formatter off/on.  Non-vacuity: the mechanism as shipped BEFORE fix e9990d2 (a NULL
-           cell in an Inventory column raises) must violate Total; five deliberately broken mechanisms must be rejected.
+           of the input space x formatter off/on -- tables with two columns of one name (and datatype) included:
+           the statement is positional, column names need not be distinct.  Non-vacuity: the mechanism as shipped
+           BEFORE fix e9990d2 (a NULL cell in an Inventory column raises) must violate Total; six deliberately broken
+           mechanisms (among them: a converter finds its column by looking its description up) must be rejected.
       S2C  TLC emits every table of a replay space with the set of acceptable output descriptions and, per row
            and currency, the set of acceptable cells.  The driver builds real Amount / Position / Inventory values
            and beanquery.Column descriptions, calls numberify_results(columns, rows, dformat) and compares by
            membership; a subset is also built as a ledger and taken through run_query(.., numberify=True) and,
            as a text ledger, through BQLShell (`.set numberify true`, csv into a buffer).
       C2S  random tables (plain + amount-like columns, many currencies, several lots per currency, NULL cells,
-           empty inventories, zero amounts, display context built from the values) and random ledgers queried
-           through run_query (PIVOT BY included: NULL inventory cells) are recorded as ndjson and every line is
+           empty inventories, zero amounts, equally named / equally described columns, display context built from
+           the values) and random ledgers queried through run_query (PIVOT BY included: NULL inventory cells; one
+           alias on several targets) are recorded as ndjson and every line is
            judged by Accepts inside TLC (Trace_Numberify).
 """
 import csv
@@ -232,12 +235,12 @@ def compare_expected(ctx, p, route, odesc, orows, plain_eq, num_of=num_py):
     case = {'route': route, 'cols': p['cols'], 'rows': p['rows'], 'fmt': p['fmt'], 'q': p['q'], 'descs': p['descs'],
             'cells': p['cells']}
     kind = '+'.join(c['ty'] for c in p['cols'] if c['ty'] in AMT)
-    match = None
-    for d in p['descs']:
-        if len(d) == len(odesc) and all(x[0] == o[0] and (o[1] is None or x[1] == o[1]) for x, o in zip(d, odesc)):
-            match = d
-            break
-    if match is None:
+    # the acceptable descriptions with the observed names (and types); equally named input columns can make several
+    # of them agree on the names while differing in which input column owns an output column: the observation is
+    # acceptable iff it fits one of them
+    cands = [d for d in p['descs']
+             if len(d) == len(odesc) and all(x[0] == o[0] and (o[1] is None or x[1] == o[1]) for x, o in zip(d, odesc))]
+    if not cands:
         ctx.violation('numberify:%s:description:%s' % (route, kind), 'output description is none of the acceptable ones '
                       '(names `name (CUR)`, frequency order, no currency dropped, plain columns in place)', case,
                       'S2C', p['descs'][:4], odesc)
@@ -245,28 +248,41 @@ def compare_expected(ctx, p, route, odesc, orows, plain_eq, num_of=num_py):
     if len(orows) != len(p['rows']):
         ctx.violation('numberify:%s:row-count' % route, 'row count changed', case, 'S2C', len(p['rows']), len(orows))
         return False
-    ok = True
-    for r, orow in enumerate(orows):
-        if len(orow) != len(match):
+    for orow in orows:
+        if len(orow) != len(odesc):
             ctx.violation('numberify:%s:row-width' % route, 'row width differs from the description', case, 'S2C',
-                          len(match), len(orow))
+                          len(odesc), len(orow))
             return False
+    first = None
+    for match in cands:
+        bad = _cell_mismatches(p, route, match, orows, plain_eq, num_of)
+        if not bad:
+            return True
+        if first is None:
+            first = bad
+    for key, clause, expected, observed in first:
+        ctx.violation(key, clause, case, 'S2C', expected, observed)
+    return False
+
+
+def _cell_mismatches(p, route, match, orows, plain_eq, num_of):
+    """-> [(key, clause, expected, observed)..]: the cells of the observed rows that do not fit description `match`"""
+    bad = []
+    for r, orow in enumerate(orows):
         for k, (name, _ty, j, cur) in enumerate(match):
             if cur == '':
                 if not plain_eq(r, j - 1, orow[k]):
-                    ctx.violation('numberify:%s:plain-cell' % route, 'a plain cell was changed', case, 'S2C',
-                                  'row %d column %s untouched' % (r, name), repr(orow[k]))
-                    ok = False
+                    bad.append(('numberify:%s:plain-cell' % route, 'a plain cell was changed',
+                                'row %d column %s (input column %d) untouched' % (r, name, j), repr(orow[k])))
                 continue
             acc = dict((c, a) for c, a in p['cells'][r][j - 1])[cur]
             v = num_of(orow[k])
             if v is None or v not in acc:
-                ctx.violation('numberify:%s:cell:%s%s' % (route, p['cols'][j - 1]['ty'], ':fmt' if p['fmt'] else ''),
-                              'new cell is not the units of the currency in the original value (quantised when a '
-                              'formatter is given; NULL or zero when absent)', case, 'S2C',
-                              {'row': r, 'column': name, 'acceptable': acc}, repr(orow[k]))
-                ok = False
-    return ok
+                bad.append(('numberify:%s:cell:%s%s' % (route, p['cols'][j - 1]['ty'], ':fmt' if p['fmt'] else ''),
+                            'new cell is not the units of the currency in the original value (quantised when a '
+                            'formatter is given; NULL or zero when absent)',
+                            {'row': r, 'column': name, 'input_column': j, 'acceptable': acc}, repr(orow[k])))
+    return bad
 
 
 def build_direct(p):
@@ -570,6 +586,14 @@ def rnd_table(rng):
     tys = [rng.choice(AMT) if rng.random() < 0.55 else rng.choice(PLAIN_TYPES) for _ in range(ncols)]
     if not any(t in AMT for t in tys) and rng.random() < 0.9:
         tys[rng.randrange(ncols)] = rng.choice(AMT)
+    if ncols > 1 and rng.random() < 0.3:
+        # equally named columns (BQL: `SELECT units(position) AS amt, cost(position) AS amt`), mostly of one datatype
+        # too: their descriptions are then equal although their contents differ
+        for _k in range(rng.choice([1, 1, 2])):
+            i, j = rng.sample(range(ncols), 2)
+            names[j] = names[i]
+            if rng.random() < 0.75:
+                tys[j] = tys[i]
     nrows = rng.choice([0, 1, 2, 3, 3, 4, 5, 6, 8, 12])
     inv_null_ok = rng.random() < 0.5           # NULL cells in Inventory columns (raised AttributeError before e9990d2)
     pnull = [rng.choice([0, 0, 0.15, 0.5]) for _ in tys]
@@ -620,9 +644,13 @@ def rnd_table(rng):
                     inv.add_position(p)
                 row.append(inv)
         rows.append(tuple(row) if rng.random() < 0.5 else row)
-    desc = tuple(beanquery.Column(n, tm[t]) for n, t in zip(names, tys))
+    desc = [beanquery.Column(n, tm[t]) for n, t in zip(names, tys)]
+    if rng.random() < 0.5:
+        # one description object per (name, datatype), as a caller that interns its descriptions would pass
+        seen = {}
+        desc = [seen.setdefault((c.name, c.datatype), c) for c in desc]
     dformat = dc.build() if rng.random() < 0.6 else None
-    return desc, rows, dformat
+    return tuple(desc), rows, dformat
 
 
 def record_line(f, cid, route, desc, rows, dformat, call):
@@ -684,14 +712,21 @@ LEDGER_QUERIES = [
     'SELECT account, sum(cost(position)) AS book, sum(units(position)) AS u, last(price) AS p GROUP BY account ORDER BY account',
     'SELECT account, currency, sum(position) AS inv GROUP BY account, currency PIVOT BY account, currency',
     'SELECT date, units(sum(position)) AS held, cost(sum(position)) AS book GROUP BY date ORDER BY date',
+    # one alias on several targets: equal names, equal datatypes, different contents
+    'SELECT account AS what, narration AS what, units(position) AS amt, cost(position) AS amt, lineno ORDER BY lineno',
+    'SELECT account, sum(units(position)) AS total, sum(cost(position)) AS total, count(*) AS total GROUP BY account '
+    'ORDER BY account',
+    'SELECT lineno AS n, price AS v, position AS v, year AS n, units(position) AS v ORDER BY lineno',
 ]
+DUP_QUERIES = LEDGER_QUERIES[-3:]
 
 
 def record_c2s(ctx, path, ntables, nledgers):
     from beanquery.numberify import numberify_results
     from beanquery.query import run_query
     rng = ctx.rng
-    stats = {'direct': 0, 'run_query': 0, 'raised': 0, 'fmt': 0, 'null_inventory': 0, 'amount_like_columns': 0}
+    stats = {'direct': 0, 'run_query': 0, 'raised': 0, 'fmt': 0, 'null_inventory': 0, 'amount_like_columns': 0,
+             'dup_named': 0, 'dup_described': 0, 'dup_named_ledger': 0}
     nev = 0
     with open(path, 'w') as f:
         for _ in range(ntables):
@@ -707,6 +742,8 @@ def record_c2s(ctx, path, ntables, nledgers):
         for _ in range(nledgers):
             entries, options = rnd_ledger(rng)
             text = rng.choice(LEDGER_QUERIES)
+            if text in DUP_QUERIES:
+                stats['dup_named_ledger'] += 1
             try:
                 desc, rows = run_query(entries, options, text)
             except Exception as ex:  # noqa
@@ -732,6 +769,11 @@ def _tally(ctx, ev, stats):
         stats['raised'] += 1
     if has_null_inventory(ev['cols'], ev['rows']):
         stats['null_inventory'] += 1
+    names = [c['name'] for c in ev['cols']]
+    if len(set(names)) < len(names):
+        stats['dup_named'] += 1
+        if len({(c['name'], c['ty']) for c in ev['cols']}) < len(names):
+            stats['dup_described'] += 1
     ctx.case(json.dumps([ev['cols'], ev['rows'], ev['fmt'], ev['q']]), nontrivial=namt > 0 and len(ev['rows']) > 0)
 
 
@@ -763,11 +805,13 @@ def validate_trace(ctx, path, nev, what):
 # ---- the check --------------------------------------------------------------------------------------
 NONVACUITY = [('MC_Numberify_shipped.cfg', 'Total'), ('MC_Numberify_cap2.cfg', 'NoCurrencyDropped'),
               ('MC_Numberify_asc.cfg', 'FreqOrdered'), ('MC_Numberify_poscost.cfg', 'SumPreserved'),
-              ('MC_Numberify_noquant.cfg', 'SumPreserved'), ('MC_Numberify_lot1.cfg', 'Correct')]
+              ('MC_Numberify_noquant.cfg', 'SumPreserved'), ('MC_Numberify_lot1.cfg', 'Correct'),
+              ('MC_Numberify_byname.cfg', 'Correct')]
 
 
 def run(ctx):
-    ctx.rule = ('S2C: every table of the replay space (kind x <= 3 rows x 3 currencies x lots x NULL / empty) x formatter '
+    ctx.rule = ('S2C: every table of the replay space (kind x <= 3 rows x 3 currencies x lots x NULL / empty, and pairs of '
+                'equally named columns) x formatter '
                 'off/on, each a distinct (table, formatter) pair; non-trivial = at least one row and one non-NULL '
                 'amount-like cell; C2S: random tables / ledgers, non-trivial = an amount-like column and a row')
     ctx.assumptions += [
@@ -776,8 +820,10 @@ def run(ctx):
         'a quantity of zero (absent currency, lots that cancel, a number that quantises to zero) may be NULL or 0',
         'quantised = a nearest multiple of 10^-precision (an exact tie may go either way); a currency the formatter '
         'does not know is not quantised; the precision per currency is read from the formatter (beancount API)',
-        'input column names are distinct; |numbers| < 20000 with <= 4 fractional digits (32-bit rationals in TLC), '
-        'anything else is skipped and counted',
+        'input column names need not be distinct: ownership of the output columns is positional, and where equal '
+        'names leave the boundary between two groups of new columns open, any assignment satisfying every clause is '
+        'accepted; |numbers| < 20000 with <= 4 fractional digits (32-bit rationals in TLC), anything else is skipped '
+        'and counted',
         'TLC 1.8, Json/IOUtils community modules, CPython 3.12, beancount 3.2',
     ]
     legs = getattr(ctx, 'only_legs', None)
@@ -817,7 +863,8 @@ def run(ctx):
     if want('S2C'):
         n = nroute = 0
         kinds = {}
-        cfgs = ctx.pick(['Gen_Numberify.cfg'], ['Gen_Numberify_thorough1.cfg', 'Gen_Numberify_thorough2.cfg'])
+        cfgs = ctx.pick(['Gen_Numberify.cfg'], ['Gen_Numberify_thorough1.cfg', 'Gen_Numberify_thorough2.cfg',
+                              'Gen_Numberify_thorough3.cfg'])
         for cfg in cfgs:
             res = ctx.tlc('Gen_Numberify', cfg, leg='GEN')
             cases = res.printed
@@ -874,6 +921,8 @@ def run(ctx):
         ctx.leg('C2S', **stats)
         if stats['run_query'] == 0 or stats['direct'] == 0:
             raise MachineryError('vacuity: a C2S route recorded nothing')
+        if stats['dup_described'] == 0 or stats['dup_named_ledger'] == 0:
+            raise MachineryError('vacuity: no C2S table with two columns of one name and datatype')
         cpu('C2S')
     ctx.exhaustive = False
 
